@@ -136,7 +136,7 @@ func ToParams(protoParams *Params) (*channel.Params, error) {
 
 	var aux channel.Aux
 	copy(aux[:], protoParams.GetAux())
-	params := channel.NewParamsUnsafe(
+	params, err := channel.NewParams(
 		protoParams.GetChallengeDuration(),
 		parts,
 		app,
@@ -146,7 +146,7 @@ func ToParams(protoParams *Params) (*channel.Params, error) {
 		aux,
 	)
 
-	return params, nil
+	return params, errors.WithMessage(err, "params")
 }
 
 // ToState converts a protobuf State to a channel.State.
